@@ -207,6 +207,14 @@ class Interp:
             if i >= len(b):
                 raise Undefined()
             return b[i]
+        if k == "call" and (x[1].endswith("::index") or x[1].endswith("::index_mut")) and len(x[2]) == 2:
+            base, i = x[2]
+            if not (i[0] == "adt" and "ops::range" in i[1]):
+                b = self.sv(base)              # data[i] on a byte container
+                n = self.iv(i)
+                if not (0 <= n < len(b)):
+                    raise Undefined()
+                return b[n]
         if k == "discr":
             return 0 if self.ov(x[1]) is None else 1
         if self.ints and x[0] == "p" and x in self.ints:
